@@ -740,3 +740,47 @@ def handlers_stream(ctx, worlds, runs, outside=lambda w: False, stream="S-handle
             j += 1
         out.append((idx[k], j, mv[1][j] if j < len(mv[1]) else None, exp[1][j] if j < len(exp[1]) else None))
     return out, len(cases), kinds
+
+
+def cancels_stream(ctx, worlds, runs, stream="S-cancel-handlers"):
+    """every TASK_CANCEL event handled: the pending placement event the handler removed (its time) or nothing, as computed by
+    Model/SimHandlers.v cancel_outcome from the machine-with-queue state vs as observed on the implementation's queue."""
+    cases, idx = [], []
+    n_removed = n_none = 0
+    for i, (w, r) in enumerate(zip(worlds, runs)):
+        if r["status"] == "adapter-error" or not r["log"] or len(r["log"]) > MAX_LOG:
+            continue
+        log = r["log"]
+        outs = []
+        k = 0
+        complete = True
+        while k < len(log):
+            e = log[k]
+            if e[0] == "handle" and e[2] == "TASK_CANCEL" and e[3] is not None:
+                j = k + 1
+                rem = None
+                while j < len(log) and log[j][0] != "handled":
+                    f = log[j]
+                    if f[0] == "qremove" and f[2] == "TASK_PLACEMENT" and f[3] == e[3]:
+                        rem = f[1]
+                    j += 1
+                if j >= len(log):
+                    complete = False
+                    break
+                outs.append(rem)
+            k += 1
+        if not outs or not complete:
+            continue
+        gworld, gevs, nm, unsup, _dom = convert_q(r, w)
+        if unsup or gevs is None:
+            continue
+        n_removed += sum(1 for o in outs if o is not None)
+        n_none += sum(1 for o in outs if o is None)
+        cases.append(("(%s, %s)" % (gworld, gevs), [1, [[] if o is None else [o] for o in outs]], i))
+        idx.append(i)
+    ctx.cov.setdefault("input_distribution", {})["cancel_handlers_compared"] = {"placement_removed": n_removed, "nothing_pending": n_none}
+    mism = cached_model_stream(ctx, stream, HEADER_HANDLERS, "world * list qev", "(fun p => observe_cancels (fst p) (snd p))", cases, 10,
+                               ["Model/Sim.v", "Model/SimQ.v", "Model/SimRows.v", "Model/SimHandlers.v", "Model/EventQ.v",
+                                "Gen/Src_Task.v", "Gen/Src_TaskGraph.v", "Gen/Src_Event.v", "Model/Val.v"])
+    ctx.cov["streams"].setdefault(stream, {}).update({"handlers_with_a_placement_removed": n_removed, "handlers_with_nothing_pending": n_none})
+    return [(idx[k], mv, cases[k][1]) for k, mv in mism], len(cases)
